@@ -144,6 +144,34 @@ def links_ok(doc):
     return True
 
 
+def forgive_single_bracketed(exp, world):
+    """the expected world with the values of every Property whose ONLY value is text that is bracketed or blank
+    replaced by the loaded ones (classification aid for a known finding of C01, not a verdict); None if there is none"""
+    import ast, json
+    a, b = {}, {}
+    def walk(st, x, path, out):
+        out[path] = x
+        for i, c in enumerate(st["kids"].get(x, [])):
+            walk(st, c, path + "/s%d" % i, out)
+        for i, c in enumerate(st["plist"].get(x, [])):
+            walk(st, c, path + "/p%d" % i, out)
+    walk(exp, "d1", "", a); walk(world, "r1", "", b)
+    alt, hit = None, False
+    for path, x in a.items():
+        v = exp["vals"].get(x, [])
+        if len(v) == 1 and v[0]["t"] == "str" and path in b:
+            try:
+                text = ast.literal_eval(v[0]["e"][0]).strip()
+            except Exception:
+                continue
+            if text == "" or (text.startswith("[") and text.endswith("]")):
+                if alt is None:
+                    alt = json.loads(json.dumps(exp))
+                alt["vals"][x] = world["vals"][b[path]]
+                hit = True
+    return alt if hit else None
+
+
 OPS = ["clone_attach", "clone_attach", "merge", "move", "move", "rename", "edit_prop", "create", "remove", "link", "finalize", "clean",
        "saveload", "saveload"]
 
@@ -181,6 +209,10 @@ def replay_history(t):
                 else:
                     loaded = ODMLReader(fmt, show_warnings=False).from_string(text)
                 rec["world"] = D.unc_text(W.project_full({"r1": loaded}, idtok)[0])
+                if fmt == "XML":
+                    alt = forgive_single_bracketed(rec["exp"], rec["world"])
+                    if alt is not None:
+                        rec["exp_alt"] = alt
             except Exception as e:
                 rec["out"], rec["exc"] = "raised", type(e).__name__
                 rec["world"] = D.unc_text(W.project_full({"r1": odml.Document()}, idtok)[0])
